@@ -867,8 +867,71 @@ def r4_channel_pairs(repo=None):
     return r
 
 
+NORMALISERS = ("os.path.abspath", "os.path.realpath", "os.path.normpath", "os.path.expanduser", "os.path.normcase")
+
+
+def r5_listing_root_spelled_like_the_source(repo=None):
+    """'at the same relative path': the commands compute a file's relative path as relpath(<listed path>, <source>), which is the
+    path below the source only if the listing yields paths that start with the source *as the command spells it*.  Both sides
+    normalise: ilsdrf its `path` argument, the commands args.src (and the mirror its src).  They must apply the same function - a
+    listing rooted at realpath(path) yields paths outside abspath(src) whenever the source (or a parent) is a symbolic link, the
+    relative path starts with `..`, and cp / ln / mv put the files outside the destination (mv also removes them)."""
+    r = Rule("C18.R5", "the listing normalises its root with the function the transfer commands apply to the source (relative paths stay below it)")
+    m = pyfront.mod("list_drf", repo)
+    f = m.fn("ilsdrf")
+    p0 = f.args.args[0].arg
+
+    def norm_chain(fn, is_target, param_like):
+        """names of the normalising functions applied (innermost first) where `fn` re-binds the path it was given"""
+        out = None
+        for a in ast.walk(fn):
+            if isinstance(a, ast.Assign) and len(a.targets) == 1 and is_target(a.targets[0]):
+                v, chain = a.value, []
+                while isinstance(v, ast.Call) and pyfront.call_name(v) in NORMALISERS and len(v.args) == 1:
+                    chain.append(pyfront.call_name(v))
+                    v = v.args[0]
+                if param_like(v) and chain:
+                    if out is not None:
+                        raise AnalysisError("%s: the path is normalised more than once" % fn.name)
+                    out = tuple(reversed(chain))
+        return out
+    lst = norm_chain(f, lambda t: isinstance(t, ast.Name) and t.id == p0, lambda v: isinstance(v, ast.Name) and v.id == p0)
+    pq = prepare_fn(m)
+    pf = m.flat(pq).fn()
+    cmd = norm_chain(pf, lambda t: pyfront.dotted(t) == "args.src", lambda v: pyfront.dotted(v) == "args.src")
+    if lst is None or cmd is None:
+        raise AnalysisError("list_drf: normalisation of the listing root (%s) / of args.src (%s) not recognised" % (lst, cmd))
+    site = "%s:%s ilsdrf / %s" % (m.rel, f.lineno, pq)
+    if lst == cmd:
+        r.ok(site, "both apply %s" % " . ".join(lst))
+    else:
+        r.violation(m.rel, "ilsdrf", "%s = %s(%s) vs args.src = %s(args.src)" % (p0, ".".join(lst), p0, ".".join(cmd)), "the listing yields paths below "
+                    "%s(path) while the commands take them relative to %s(src): for a source reached through a symbolic link the "
+                    "relative path leaves the source (`../..`), the files are transferred outside the destination and mv removes them "
+                    "from the source" % (lst[-1], cmd[-1]), line=f.lineno)
+    # the mirror maps listed paths the same way
+    try:
+        mm = pyfront.mod("mirror", repo)
+        srcs = set()
+        for fn_ in mm.functions.values():
+            ch = norm_chain(fn_, lambda t: pyfront.dotted(t) == "self.src", lambda v: isinstance(v, ast.Name) and v.id == "src") if any(
+                a_.arg == "src" for a_ in fn_.args.args) else None
+            if ch:
+                srcs.add(ch)
+        for ch in sorted(srcs):
+            if ch == lst:
+                r.ok("%s self.src" % mm.rel, "the mirror applies %s to its source as well" % " . ".join(ch))
+            else:
+                r.violation(mm.rel, "DigitalRFMirror", "self.src = %s(src)" % ".".join(ch), "the mirror takes listed paths relative to %s(src), the "
+                            "listing yields them below %s(path)" % (ch[-1], lst[-1]), line=None)
+    except AnalysisError:
+        pass
+    r.guard(1)
+    return r
+
+
 def rules(repo=None):
-    return [lambda: r1_transfer_loops(repo), lambda: r2_option_table(repo), lambda: r3_wiring(repo), lambda: r4_channel_pairs(repo)]
+    return [lambda: r5_listing_root_spelled_like_the_source(repo), lambda: r1_transfer_loops(repo), lambda: r2_option_table(repo), lambda: r3_wiring(repo), lambda: r4_channel_pairs(repo)]
 
 
 EXPLANATION = (
@@ -887,7 +950,9 @@ EXPLANATION = (
     'that lies below another requested one is reported (the other listing need not cover it); overlap is resolved per '
     'file: the per-file loop of every command skips a destination path that was transferred already (`if D in seen: '
     'continue; seen.add(D)`, the only conditional skip R1 accepts). Does NOT decide byte identity (library code). R1 '
-    'also: a run function with two loops over ilsdrf that both change the file system acts on two selections (violation).')
+    'also: a run function with two loops over ilsdrf that both change the file system acts on two selections (violation).'
+    ' R5: ilsdrf normalises its root argument with the same function (os.path.abspath) that the transfer commands apply '
+    'to args.src and the mirror to its source: relpath(listed path, source) stays below the source.')
 TECHNIQUE = (
     'Python ast; alpha-equivalence of sibling commands; loop-carried dependence of the destination; option-table vs '
     'signature agreement; registry/table checks')
